@@ -44,3 +44,40 @@ Proof.
       destruct (negb (o_c_writes (w t))); cbn; try discriminate;
       destruct (put_ok (f_put f) st1); cbn; discriminate.
 Qed.
+
+(* a hit hands back exactly the entry that the cache holds under the request's key: stdout, stderr and every output
+   file are those stored by the compile that created the entry - nothing is recomputed, shortened or padded.
+   (How an entry's bytes survive the zip / zstd encoding is C08's subject; the differential leg `entry` of C01 compares
+   this identity with the real CacheWrite -> CacheRead path on members of every size and compressibility class.) *)
+Lemma lookup_hit_is_stored f cc k st so se outs :
+  cache_lookup f cc k st = LHit so se outs -> kv_get k (cs_res st) = Some (RGood so se outs).
+Proof.
+  unfold cache_lookup. destruct cc; try discriminate.
+  destruct (f_get f); try discriminate; try (destruct (f_outdir_ok f); discriminate).
+  destruct (kv_get k (cs_res st)) as [[so' se' outs'| | | |]|]; try discriminate;
+    destruct (f_outdir_ok f); try discriminate.
+  intros H. injection H as -> -> ->. reflexivity.
+Qed.
+
+Lemma hit_returns_stored_entry f cc o st :
+  r_outcome (snd (execute f cc o st)) = Some OHit ->
+  exists st1 pp k so se outs,
+    generate_hash_key f cc o st = (st1, HKKey k, pp) /\
+    kv_get k (cs_res st1) = Some (RGood so se outs) /\
+    r_client (snd (execute f cc o st)) = CFinished 0 so se /\
+    r_outputs (snd (execute f cc o st)) = outs /\ r_cc_runs (snd (execute f cc o st)) = 0.
+Proof.
+  unfold execute.
+  destruct (generate_hash_key f cc o st) as [[st1 res] pp].
+  destruct res as [|k|]; cbn; try discriminate.
+  destruct (cache_lookup f cc k st1) as [so se outs|mt|] eqn:Hl; cbn; try discriminate.
+  - intros _. exists st1, pp, k, so, se, outs. repeat split; try reflexivity.
+    eapply lookup_hit_is_stored; exact Hl.
+  - unfold compile_and_store.
+    destruct (o_c_panics o); cbn; [discriminate|].
+    destruct (negb (o_c_status o =? 0)); cbn; [discriminate|].
+    destruct mt; cbn; try discriminate;
+      destruct (negb (o_cacheable o)); cbn; try discriminate;
+      destruct (negb (o_c_writes o)); cbn; try discriminate;
+      destruct (put_ok (f_put f) st1); cbn; discriminate.
+Qed.
